@@ -22,6 +22,7 @@ import re
 import shutil
 import tempfile
 import traceback
+import warnings
 
 import numpy as np
 
@@ -122,6 +123,81 @@ def df_rows(df, hier, nm, named):
     return rows
 
 
+def _transcribe(d, i, conf, q, cells_in_file, hier, nm, named):
+    """cli/transcribe_to_obs.py on the result of run i: a NEW file whose obs table carries the result"""
+    import anndata
+    import pandas as pd
+    from harness import argshim
+    argshim.install()
+    from cell_type_mapper.cli.transcribe_to_obs import TranscribeToObsRunner
+    tr = {'done': True, 'ok': True, 'ids_ok': False, 'rows': [], 'rest_same': False, 'again_refused': False,
+          'again_clobber_ok': False, 'dup_refused': False}
+    newp = d / f'transcribed_{i}.h5ad'
+    args = {'result_path': conf['extended_result_path'], 'h5ad_path': q, 'new_h5ad_path': str(newp)}
+    before = base_digest(q)
+    try:
+        with warnings.catch_warnings():
+            warnings.simplefilter('ignore')
+            TranscribeToObsRunner(args=[], input_data=dict(args)).run()
+            a0 = anndata.read_h5ad(q)
+            a1 = anndata.read_h5ad(newp)
+    except Exception as e:                                # noqa
+        tr['ok'] = False
+        tr['error'] = f'{type(e).__name__}: {str(e)[:200]}'
+        return tr
+    cdm = [c for c in a1.obs.columns if c.startswith('CDM_')]
+    df = a1.obs[cdm].rename(columns={c: c[4:] for c in cdm})
+    tr['ids_ok'] = list(a1.obs.index) == cells_in_file
+    tr['rows'] = df_rows(df, hier, nm, named)
+
+    def same_x(x, y):
+        x = x.toarray() if hasattr(x, 'toarray') else np.asarray(x)
+        y = y.toarray() if hasattr(y, 'toarray') else np.asarray(y)
+        return x.shape == y.shape and bool(np.array_equal(x, y))
+    old_cols = [c for c in a1.obs.columns if not c.startswith('CDM_')]
+    tr['rest_same'] = bool(
+        base_digest(q) == before and same_x(a0.X, a1.X) and a0.var.equals(a1.var) and old_cols == list(a0.obs.columns)
+        and a0.obs.equals(a1.obs[old_cols]) and sorted(a0.obsm.keys()) == sorted(a1.obsm.keys())
+        and all((a0.obsm[k].equals(a1.obsm[k]) if isinstance(a0.obsm[k], pd.DataFrame) else same_x(a0.obsm[k], a1.obsm[k]))
+                for k in a0.obsm.keys())
+        and json.dumps(_jsonable(dict(a0.uns)), sort_keys=True) == json.dumps(_jsonable(dict(a1.uns)), sort_keys=True))
+    # the output exists now: a second transcription is refused unless clobber is set
+    try:
+        TranscribeToObsRunner(args=[], input_data=dict(args))
+    except Exception as e:                                # noqa
+        tr['again_refused'] = 'already exists' in str(e)
+    try:
+        with warnings.catch_warnings():
+            warnings.simplefilter('ignore')
+            TranscribeToObsRunner(args=[], input_data=dict(args, clobber=True)).run()
+        tr['again_clobber_ok'] = True
+    except Exception:                                     # noqa
+        pass
+    # a file that already carries the columns is refused
+    try:
+        with warnings.catch_warnings():
+            warnings.simplefilter('ignore')
+            TranscribeToObsRunner(args=[], input_data=dict(args, h5ad_path=str(newp),
+                                                           new_h5ad_path=str(d / f'transcribed_twice_{i}.h5ad'))).run()
+    except RuntimeError as e:
+        tr['dup_refused'] = 'already contains' in str(e)
+    except Exception:                                     # noqa
+        pass
+    return tr
+
+
+def _jsonable(x):
+    if isinstance(x, dict):
+        return {str(k): _jsonable(v) for k, v in x.items()}
+    if isinstance(x, (list, tuple)):
+        return [_jsonable(v) for v in x]
+    if isinstance(x, np.ndarray):
+        return x.tolist()
+    if isinstance(x, (np.integer, np.floating, np.bool_)):
+        return x.item()
+    return x if isinstance(x, (str, int, float, bool)) or x is None else str(x)
+
+
 def _case(args):
     hist, seed, wd = args
     import anndata
@@ -183,6 +259,10 @@ def _case(args):
                 issues.append((2199, traceback.format_exc()[-500:]))
                 ev['keys'], ev['views'] = [], []
             ev['error'] = r['error']
+            ev['tr'] = {'done': False, 'ok': False, 'ids_ok': True, 'rows': [], 'rest_same': True, 'again_refused': True,
+                        'again_clobber_ok': True, 'dup_refused': True}
+            if r['ok']:
+                ev['tr'] = _transcribe(d, i, conf, q, cells_in_file, hier, nm, named)
             events.append(ev)
         distinct = len(set(json.dumps(e['json']) for e in events if e['ok'])) == sum(1 for e in events if e['ok'])
         rec = {'hier': hier, 'leaf': hier[-1], 'named': named, 'foreign': ['umap'], 'events': events,
